@@ -261,6 +261,37 @@ theorem children_cover (S : Splitter) (df : Nat) (r : Range) (hs : SplitOk S df 
     · exact hothers j hj2 (by omega) hx.2
     · exact hothers i hi2 h1 hx.1
 
+/-! ### levels of pending ranges (termination measure) -/
+
+/-- the top range -/
+def topRange : Range := ⟨0, M - 1, false⟩
+
+/-- level of a pending range: an element request is decided in the next round (level 1); a range
+whose remote subtree has depth budget `g` needs at most `g + 2` more rounds; the top range
+`depthFuel + 3` -/
+def Lvl (S : Splitter) (p : Params) (b : List Elem) (n : Nat) (r : Range) : Prop :=
+  (r.els = true ∧ 1 ≤ n) ∨
+  (r.els = false ∧ ∃ g, g + 2 ≤ n ∧ WidthOk S p b g r.lo r.hi) ∨
+  (r = topRange ∧ depthFuel + 3 ≤ n)
+
+theorem lvl_children (S : Splitter) (p : Params) (b : List Elem) (hokb : TopOk S p b) (m : Nat) (r : Range) (hl : Lvl S p b (m + 1) r) (he : r.els = false)
+    (hs : SplitOk S p.df r.lo r.hi) (hgt : (slRange b r.lo r.hi).length > p.thr) :
+    ∀ r', r' ∈ (genTupleRanges r.lo r.hi p.df).map (fun t => (⟨t.1, t.2, false⟩ : Range)) →
+      Lvl S p b m r' := by
+  intro r' hr'
+  rw [hs.gen, List.map_map] at hr'
+  obtain ⟨i, hi', rfl⟩ := List.mem_map.mp hr'
+  have hi2 : i < p.df := List.mem_range.mp hi'
+  rcases hl with ⟨h1, _⟩ | ⟨_, g, hg, hw⟩ | ⟨rfl, hn⟩
+  · rw [he] at h1; cases h1
+  · cases g with
+    | zero => simp only [WidthOk] at hw; omega
+    | succ g' =>
+      rcases hw with h | h
+      · omega
+      · exact Or.inr (Or.inl ⟨rfl, g', by omega, h.2 i hi2⟩)
+  · exact Or.inr (Or.inl ⟨rfl, depthFuel, by omega, hokb.2 i hi2⟩)
+
 /-! ### one range of one round -/
 
 theorem wire_id {D} (r : RangeRes D) (h : r.count < 4294967296) : r.wire = r := by
@@ -297,11 +328,11 @@ theorem compareResults_cases (g : Bool) (a b : List Elem) (hoka : TopOk S p a)
     (compareResults A S g (canon A S p a) c r m o
       = cmpEls g c (pairs (slRange a r.lo r.hi)) (pairs (slRange b r.lo r.hi))) ∨
     (compareResults A S g (canon A S p a) c r m o
-      = { c with prepare := c.prepare ++ [{ r with els := true }] }) ∨
+      = { c with prepare := c.prepare ++ [{ r with els := true }] } ∧ r.els = false) ∨
     (compareResults A S g (canon A S p a) c r m o
       = { c with prepare := c.prepare ++
             (genTupleRanges r.lo r.hi p.df).map fun t => (⟨t.1, t.2, false⟩ : Range) } ∧
-      SplitOk S p.df r.lo r.hi) := by
+      SplitOk S p.df r.lo r.hi ∧ r.els = false ∧ (slRange b r.lo r.hi).length > p.thr) := by
   unfold compareResults
   by_cases hh : m.hash = o.hash
   · left; rw [if_pos hh]; exact ⟨rfl, hh⟩
@@ -317,17 +348,16 @@ theorem compareResults_cases (g : Bool) (a b : List Elem) (hoka : TopOk S p a)
         · rw [he]
         · cases hf
     · rw [if_neg hoc]
-      obtain ⟨_, _, hsplit⟩ := ans_incomplete A S p ho hoc
+      obtain ⟨hw, he, hsplit⟩ := ans_incomplete A S p ho hoc
       by_cases hreq : (o.count ≤ (canon A S p a).p.thr ∧ o.elems.length = 0) ∨ m.elems.length = m.count
-      · right; right; left; rw [if_pos hreq]
+      · right; right; left; rw [if_pos hreq]; exact ⟨rfl, hw⟩
       · right; right; right
         rw [if_neg hreq]
-        refine ⟨rfl, hsplit ?_⟩
-        obtain ⟨_, he, _⟩ := ans_incomplete A S p ho hoc
         have hcnt : ¬ (o.count ≤ p.thr ∧ o.elems.length = 0) := fun h => hreq (Or.inl h)
         rw [he] at hcnt
         simp only [List.length_nil, and_true] at hcnt
-        rw [← ho.count]; omega
+        have hgt : (slRange b r.lo r.hi).length > p.thr := by rw [← ho.count]; omega
+        exact ⟨rfl, hsplit hgt, hw, hgt⟩
 
 variable (hf : Nat → Nat) (a b : List Elem) (g wire : Bool)
   (hA : DigOk A) (hwa : SlWf hf a) (hwb : SlWf hf b) (hoka : TopOk S p a) (hokb : TopOk S p b)
@@ -366,7 +396,7 @@ theorem step_inv (c : DCtx) (r : Range) (rest : List Range)
   have ho := answer_ok A S p hf a b wire hA hwa hwb hoka hokb hsmall r
   have hloc := specK_local hf a b ha' hb' hwa.nodup hwb.nodup g
   rcases compareResults_cases A S p g a b hoka hlta c r _ _ hm ho with
-    ⟨he, hh⟩ | he | he | ⟨he, hs⟩
+    ⟨he, hh⟩ | he | ⟨he, _⟩ | ⟨he, hs, _, _⟩
   · -- equal hashes: nothing differs in this range
     rw [he]
     have heq := digest_inj A S p hA a b r.lo r.hi _ hm.dig (hh ▸ ho.dig)
@@ -433,6 +463,75 @@ theorem rounds_inv : ∀ (fuel : Nat) (c : DCtx) (toSend : List Range), Inv hf a
                fun k => by rw [get_prepare]; exact h.nodup k, h.disj⟩
       have h1 := round_inv A S p hf a b g wire hA hwa hwb hoka hokb hsmall (r :: rs) _ h0
       exact ih _ _ h1 cf hr
+
+/-! ### termination: every pending range has a level that decreases from round to round -/
+
+/-- one range: everything it schedules is one level lower -/
+theorem step_lvl (m : Nat) (c : DCtx) (r : Range) (hl : Lvl S p b (m + 1) r) :
+    ∀ r', r' ∈ (compareResults A S g (canon A S p a) c r ((canon A S p a).getRange A S r.lo r.hi r.els)
+        (answer A S wire (canon A S p b) r)).prepare → r' ∈ c.prepare ∨ Lvl S p b m r' := by
+  have hlta : ∀ e, e ∈ a → e.hash < M := fun e he => (hwa.hash e he).2
+  have hm := getRange_canon A S p a hoka hlta r.lo r.hi r.els
+  have ho := answer_ok A S p hf a b wire hA hwa hwb hoka hokb hsmall r
+  intro r' hr'
+  rcases compareResults_cases A S p g a b hoka hlta c r _ _ hm ho with
+    ⟨he, _⟩ | he | ⟨he, hels⟩ | ⟨he, hs, hels, hgt⟩
+  · rw [he] at hr'; exact Or.inl hr'
+  · rw [he, (cmpEls_get g c _ _ Kind.new).2] at hr'; exact Or.inl hr'
+  · rw [he] at hr'
+    rcases List.mem_append.mp hr' with h | h
+    · exact Or.inl h
+    · right
+      rw [List.mem_singleton.mp h]
+      left
+      refine ⟨rfl, ?_⟩
+      rcases hl with ⟨h1, _⟩ | ⟨_, g', hg, _⟩ | ⟨_, hn⟩
+      · rw [hels] at h1; cases h1
+      · omega
+      · omega
+  · rw [he] at hr'
+    rcases List.mem_append.mp hr' with h | h
+    · exact Or.inl h
+    · exact Or.inr (lvl_children S p b hokb m r hl hels hs hgt r' h)
+
+theorem round_lvl (m : Nat) : ∀ (toSend : List Range) (c : DCtx),
+    (∀ r, r ∈ toSend → Lvl S p b (m + 1) r) → (∀ r, r ∈ c.prepare → Lvl S p b m r) →
+    ∀ r, r ∈ (round A S g wire (canon A S p a) (canon A S p b) c toSend).prepare → Lvl S p b m r := by
+  intro toSend
+  induction toSend with
+  | nil => intro c _ hc; simpa [round] using hc
+  | cons r rest ih =>
+    intro c hts hc
+    have h1 := step_lvl A S p hf a b g wire hA hwa hwb hoka hokb hsmall m c r (hts r (by simp))
+    have := ih _ (fun r' hr' => hts r' (by simp [hr'])) (fun r' hr' => (h1 r' hr').elim (hc r') id)
+    simpa [round] using this
+
+/-- the loop ends when it has at least as many rounds left as the highest level -/
+theorem rounds_terminate : ∀ (n fuel : Nat) (c : DCtx) (toSend : List Range),
+    (∀ r, r ∈ toSend → Lvl S p b n r) → n ≤ fuel →
+    ∃ cf, rounds A S g wire (canon A S p a) (canon A S p b) fuel c toSend = some cf := by
+  intro n
+  induction n with
+  | zero =>
+    intro fuel c toSend hl _
+    cases toSend with
+    | nil => exact ⟨c, by cases fuel <;> simp [rounds]⟩
+    | cons r rs =>
+      exfalso
+      rcases hl r (by simp) with ⟨_, h⟩ | ⟨_, g', h, _⟩ | ⟨_, h⟩ <;> omega
+  | succ m ih =>
+    intro fuel c toSend hl hfuel
+    cases toSend with
+    | nil => exact ⟨c, by cases fuel <;> simp [rounds]⟩
+    | cons r rs =>
+      cases fuel with
+      | zero => omega
+      | succ f =>
+        simp only [rounds]
+        apply ih
+        · exact round_lvl A S p hf a b g wire hA hwa hwb hoka hokb hsmall m (r :: rs) _ hl
+            (fun r' hr' => by cases hr')
+        · omega
 
 end step
 
